@@ -1,4 +1,4 @@
-"""Oracle-only stratum of C04 / C14 (R vs S, M=None): requested time grids that are NOT dyadic.
+"""Stratum of C04 / C14 with requested time grids that are NOT dyadic (R vs S, and vs M where the float arithmetic is exact).
 
 The Lean models compute in `Rat` and are tied to the code on dyadic grids, where float arithmetic
 is exact.  The property, however, speaks about the requested time points themselves: the result
@@ -10,6 +10,12 @@ ends, overrides' time shift) stays dyadic, so the expected labels are known bit 
 
 S is a declarative Python restatement on an absolute clock (no integrator state, no shift, no
 join): labels exact, per-row parameters exact, states from the closed form (1e-6).
+
+M (round 3): every double is a rational, and the library does no arithmetic on the requested points unless a time
+shift is set (`p - shift`, later `+ shift`) or the grid is relative (`p + t_start`).  `exact_for_model` checks, per
+case, that those float operations are exact on the case's points (round trip `(p - shift) + shift == p`, `p + t_start`
+without rounding); then the Lean model, fed the exact rationals of the doubles, must reproduce the labels bit for bit and
+is compared as M (shape prefix `grid-exact:`).  Otherwise M = None as before (`grid:`).
 """
 from __future__ import annotations
 
@@ -199,9 +205,68 @@ def shape_of(case):
         ("r" if any(o[0] == "ptc" and o[3] for o in case["ops"]) else "")
 
 
-def evaluate(case):
+def exact_for_model(case) -> bool:
+    """are the library's float operations on this case's requested points exact (so that the `Rat` model, fed the
+    doubles as rationals, computes the very labels the code computes)?"""
+    now, shift = 0.0, None
+    for op in case["ops"]:
+        kind = op[0]
+        if kind == "sim":
+            now = fl(op[1])
+        elif kind == "var":
+            shift = now if now > 0.0 or shift is not None else None  # before the first simulation no shift is set
+        elif kind == "tc":
+            pts = [fl(x) for x in op[1]]
+            if shift is not None and any((p - shift) + shift != p or F(p - shift) != F(p) - F(shift) for p in pts if p >= now):
+                return False
+            now = pts[-1]
+        elif kind == "ptc":
+            pts = [fl(x) for x in op[2]]
+            if op[3]:
+                if any(F(p + now) != F(p) + F(now) for p in pts):
+                    return False
+                pts = [p + now for p in pts]
+            if shift is not None and any((p - shift) + shift != p or F(p - shift) != F(p) - F(shift) for p in pts if p >= now):
+                return False
+            now = float(F(now) + sum(F(d) for d, _ in op[1]))
+    return True
+
+
+def model_ops(case):
+    """the case with every number as the exact rational of the double the code receives"""
+    out = []
+    for op in case["ops"]:
+        if op[0] == "tc":
+            out.append(["tc", [c04.fs(fl(x)) for x in op[1]]])
+        elif op[0] == "ptc":
+            out.append(["ptc", op[1], [c04.fs(fl(x)) for x in op[2]], op[3]])
+        else:
+            out.append(op)
+    return out
+
+
+def model_obs(drv):
+    """driver answer (impl machine) in the shape of `observe`"""
+    exact, vals = c04.model_snap(drv["impl"]["snaps"][-1])
+    rows = []
+    for s, vs in zip(exact["segs"] or [], vals or []):
+        for t, v in zip(s["idx"], vs):
+            rows.append((float(F(t)), s["pars"], dict(zip(c04.VARS, v))))
+    return {"outs": drv["impl"]["outs"], "rows": rows, "pars": exact["pars"]}
+
+
+def evaluate(case, with_model=False):
     real = c04.real_run(case)
-    return canon_pair(observe(real), spec(case))
+    R, S = canon_pair(observe(real), spec(case))
+    if not with_model:
+        return R, S
+    M = None
+    if exact_for_model(case):
+        from vlib import driver
+
+        (drv,) = driver.call_batch([{"op": "c14", "pars": case["pars"], "ops": model_ops(case)}])
+        M, _ = canon_pair(model_obs(drv), spec(case))
+    return R, S, M
 
 
 def shrink(case):
@@ -264,17 +329,29 @@ def _legal(case):
 def process(ctx, cases):
     from vlib.framework import canon
 
-    for case in cases:
-        if not _legal(case):
-            continue
-        R, S = evaluate(case)
-        ctx.count(case, shape_of(case), len(R["rows"]) > 2)
+    cases = [c for c in cases if _legal(c)]
+    reals = c04.pool().map(c04.real_run, cases, chunksize=8) if len(cases) > 1 else [c04.real_run(c) for c in cases]
+    drvs = {}
+    if ctx.driver_ok:
+        from vlib import driver
+
+        ex = [i for i, c in enumerate(cases) if exact_for_model(c)]
+        answers = driver.call_batch([{"op": "c14", "pars": cases[i]["pars"], "ops": model_ops(cases[i])} for i in ex])
+        drvs = dict(zip(ex, answers))
+    for i, (case, real) in enumerate(zip(cases, reals)):
+        R, S = canon_pair(observe(real), spec(case))
+        M = None
+        if i in drvs:
+            M, _ = canon_pair(model_obs(drvs[i]), spec(case))
+        ctx.count(case, ("grid-exact:" if M is not None else "grid:") + shape_of(case)[5:], len(R["rows"]) > 2)
         if canon(R) != canon(S) and len(ctx.violations) <= 3:
             small = shrink(case)
             R2, S2 = evaluate(small)
             if canon(R2) != canon(S2):
                 case, R, S = small, R2, S2
-        ctx.judge(case, R, S, None, what="non-dyadic requested grid: exact index labels / parameters / states (oracle-only)")
+                M = None
+        ctx.judge(case, R, S, M, what="non-dyadic requested grid: exact index labels / parameters / states"
+                  + (" (model fed the doubles as rationals)" if M is not None else " (oracle-only)"))
 
 
 def run(ctx, n, protocols=True):
@@ -284,7 +361,7 @@ def run(ctx, n, protocols=True):
 
 
 def replay(ctx, case):
-    R, S = evaluate(case)
-    print("R =", R, "\nS =", S)
+    R, S, M = evaluate(case, with_model=ctx.driver_ok)
+    print("R =", R, "\nS =", S, "\nM =", M)
     ctx.count(case, shape_of(case))
-    ctx.judge(case, R, S, None, what="non-dyadic requested grid: exact index labels / parameters / states (oracle-only)")
+    ctx.judge(case, R, S, M, what="non-dyadic requested grid: exact index labels / parameters / states")
